@@ -1301,6 +1301,12 @@ pub fn run(run: &mut Run, seed: u64, thorough: bool, replay: Option<&str>, corpu
     for t in crate::fontbox::cases(&mut brng, thorough) {
         one(run, &t);
     }
+    // which font goes where: cells on a page k != 0 next to another font in slot 0, two pages other than (0, 1), the built-in
+    // default font in slots other than 0 (own generator state)
+    let mut srng = Rng::new(seed ^ 0x5107);
+    for t in crate::fontslot::cases(&mut srng, thorough) {
+        one(run, &t);
+    }
     // PSF1 / PSF2 files as the loader reads them: every mode bit, unicode tables, header sizes, flags
     let mut prng = Rng::new(seed ^ 0x95F1);
     for mode in [0u8, 1, 2, 3, 4, 5, 6, 7, 254, 255] {
